@@ -42,6 +42,8 @@ def validate(outdir, pid, k):
     demo_text = open(demo).read()
     feats = features_of(demo_text, pid)
     fflag = ("--features " + feats) if feats else ""
+    if re.search(r"cargo test[^\n]*--release", demo_text):
+        fflag += " --release"   # the demonstration needs a build without debug assertions
     wt = tempfile.mkdtemp(prefix="val-%s-%d-" % (pid, k), dir="/tmp")
     os.rmdir(wt)
     res = {"property": pid, "k": k, "features": feats, "ran": []}
